@@ -26,6 +26,12 @@ def tsan_reports(err):
     """Extract (key, text) for every data-race report; key = the two access sites (function@file)."""
     out = []
     for blk in re.split(r"(?=WARNING: ThreadSanitizer: )", err or ""):
+        if blk.startswith("WARNING: ThreadSanitizer: heap-use-after-free") or blk.startswith("WARNING: ThreadSanitizer: double-free"):
+            # memory handed back to the allocator while another thread can still reach it (ordered by nothing): keyed by the accessing function
+            m = re.search(r"(?:Write|Read|Atomic write|Atomic read) of size \d+ at \S+ by [^\n]*\n(?:\s+#\d+ [^\n]*\n)*?\s+#\d+ (\S+) (/\S+?/src/\S+?):(\d+)", blk)
+            kind = "double-free" if "double-free" in blk[:60] else "use-after-free"
+            out.append((f"race:{kind}:" + (f"{m.group(1)}@{os.path.basename(m.group(2))}" if m else "unknown"), blk[:6000]))
+            continue
         if not blk.startswith("WARNING: ThreadSanitizer: data race"):
             continue
         sites = []
